@@ -27,7 +27,7 @@ Implementation: Thin wrapper around Orchestrator with enhanced configuration han
 from pathlib import Path
 
 from src.core.types import Violation
-from src.linter_config.ignore import IgnoreDirectiveParser
+from src.linter_config.ignore import IgnoreDirectiveParser, load_ignore_file_patterns
 from src.linter_config.loader import LinterConfigLoader
 from src.orchestrator.core import Orchestrator
 
@@ -71,7 +71,10 @@ class Linter:
         if not isinstance(patterns, list):
             return
         parser = IgnoreDirectiveParser(self.project_root)
-        parser.repo_patterns = [str(pattern) for pattern in patterns]
+        # The explicit file stands in for the project configuration; the project's .thailintignore still applies
+        parser.repo_patterns = load_ignore_file_patterns(self.project_root) + [
+            str(p) for p in patterns
+        ]
         self.orchestrator.ignore_parser = parser
 
     def _resolve_config_path(self, config_file: str | Path | None) -> Path:
